@@ -398,7 +398,8 @@ def _sig_startup_failure_subapp(case, params):
 
 def _sig_cleanup_error_skips_rest(case, params):
     d = case.get("diag") or {}
-    return (d.get("kind") == "missing" and not d.get("setup_raised") and not d.get("shutdown_failed")
+    # (a raising on_shutdown receiver no longer matters: cleanup() runs the remaining phases in finally blocks)
+    return (d.get("kind") == "missing" and not d.get("setup_raised")
             and d.get("cleanup_step_failed") and bool(d.get("after_first_cleanup_failure")))
 
 
@@ -408,7 +409,15 @@ def _sig_shutdown_error_skips_cleanup(case, params):
             and d.get("all_started_missing") and not d.get("cleanup_step_failed"))
 
 
+def _sig_run_app_no_cleanup(case, params):
+    """(fixed:439e4f8) under run_app a start-up failure left even the ROOT's started contexts uncleaned"""
+    d = case.get("diag") or {}
+    return (d.get("kind") == "missing" and d.get("setup_raised") and case.get("driver") == "run_app"
+            and bool(d.get("missing_in_root")))
+
+
 SIGNATURES = {
+    "run_app_startup_failure_no_cleanup": _sig_run_app_no_cleanup,
     "startup_failure_leaves_subapp_contexts": _sig_startup_failure_subapp,
     "cleanup_error_skips_later_receivers": _sig_cleanup_error_skips_rest,
     "on_shutdown_error_skips_cleanup": _sig_shutdown_error_skips_cleanup,
